@@ -22,7 +22,8 @@ from sim import kernel
 VERIF = kernel.VERIF
 OUT = os.path.join(VERIF, 'out')
 REPLAY_DIR = os.path.join(OUT, 'replay')
-EVIDENCE_DIR = os.path.join(VERIF, 'evidence')
+EVIDENCE_DIR = os.environ.get('VERIF_EVIDENCE_DIR') or \
+    os.path.join(VERIF, 'evidence')
 KNOWN = os.path.join(VERIF, 'known_findings.json')
 
 
